@@ -433,7 +433,7 @@ func c09Stress(c *mon.Ctx, k int) {
 			expect("any m as k, v { k == "+key+" and v == "+val+" }", d, "T", "threshold-string-lengths")
 		}
 	case 8: // many operands (long flat chain under a budget) evaluated on data
-		n := 3000
+		n := tierN(c.Tier, 12000, 60000)
 		var sb strings.Builder
 		for i := 0; i < n; i++ {
 			if i > 0 {
@@ -452,7 +452,7 @@ func bexprBudget() bexpr.Option { return bexpr.WithMaxExpressions(1 << 24) }
 func init() {
 	mon.Register(&mon.Prop{
 		ID: "C09", Level: "exploration",
-		Rule:        "exhaustive matrix: a zoo with a value of every reflect.Kind (Invalid/nil included) and the odd shapes (nil/odd elements in containers, non-string and named-string keyed maps, NaN keys, multi-level / nil / self-referential pointers, cyclic map/slice/struct, hostile json.Number) x 8 holders (map, tagged struct, *map, []interface{}, nested map, map[string]T, []T, the datum itself) x ~270 expressions (8 operators x 13 literal classes x path shapes, not/and/or, quantifiers in every binding mode); 11 stress cases (incl. lists / maps of exactly 15..1025 elements, paths of 15..257 parts, keys / values of 63..65537 bytes) (2*10^4 | 3*10^5-element lists and maps, 10^5 | 1.5*10^6-byte strings, 300 | 3000-level nesting with paths of that length, 6-fold nested quantifiers over 96 leaves, embedded structs, 3000-operand chains) whose outcomes are known by construction; then the seeded C01 workload incl. the reference's unspecified cases. oracle: recover() sees no panic, the process does not die, err != nil implies result == false. non-trivial = the expression parsed and was evaluated; distinct by (operator, zoo entry@holder, expression)",
+		Rule:        "exhaustive matrix: a zoo with a value of every reflect.Kind (Invalid/nil included) and the odd shapes (nil/odd elements in containers, non-string and named-string keyed maps, NaN keys, multi-level / nil / self-referential pointers, cyclic map/slice/struct, hostile json.Number) x 8 holders (map, tagged struct, *map, []interface{}, nested map, map[string]T, []T, the datum itself) x ~270 expressions (8 operators x 13 literal classes x path shapes, not/and/or, quantifiers in every binding mode); 11 stress cases (incl. lists / maps of exactly 15..1025 elements, paths of 15..257 parts, keys / values of 63..65537 bytes) (2*10^4 | 3*10^5-element lists and maps, 10^5 | 1.5*10^6-byte strings, 300 | 3000-level nesting with paths of that length, 6-fold nested quantifiers over 96 leaves, embedded structs, 12000 | 60000-operand chains) whose outcomes are known by construction; then the seeded C01 workload incl. the reference's unspecified cases. oracle: recover() sees no panic, the process does not die, err != nil implies result == false. non-trivial = the expression parsed and was evaluated; distinct by (operator, zoo entry@holder, expression)",
 		Assumptions: []string{"recursive pointer TYPES (type T *T; p = &p) are excluded: pointerstructure's own dereference loop never ends on them, which could only ever be inconclusive here"},
 		NumCases:    func(tier string) int { return len(c09Zoo()) + c09NStress + tierN(tier, 15000, 400000) },
 		Run:         c09Run,
